@@ -421,6 +421,7 @@ func init() {
 			return nil
 		}
 		*s = MkBV((*s).(*Term).S.W, 0)
+		x.stallPoint(g)
 		return nil
 	})
 	reg("(*sync.Mutex).TryLock", func(x *Exec, g *G, a []Value) Value {
@@ -458,6 +459,7 @@ func init() {
 	reg("(*sync.RWMutex).Unlock", func(x *Exec, g *G, a []Value) Value {
 		w, _ := rwSlots(a[0])
 		*w = MkBV(32, 0)
+		x.stallPoint(g)
 		return nil
 	})
 	reg("(*sync.RWMutex).RLock", func(x *Exec, g *G, a []Value) Value {
